@@ -96,6 +96,7 @@ type State struct {
 	pinned    map[int]uint64
 	btrace    []string
 	files     map[string]bool // names of existing files (copy-on-write)
+	locks     map[string]int  // writer-lock depth per mutex (copy-on-write)
 	osFiles   map[int]osFile  // *os.File objects created by verifrt.NewFile: content object, size, position (copy-on-write)
 	axiomIDs  map[int]bool // pc entries that are hash-model axioms (not evaluated when validating a lifted stream)
 }
@@ -450,4 +451,13 @@ func (s *State) setOSFile(obj int, f osFile) {
 	}
 	n[obj] = f
 	s.osFiles = n
+}
+
+func (s *State) addLock(k string, d int) {
+	n := make(map[string]int, len(s.locks)+1)
+	for kk, v := range s.locks {
+		n[kk] = v
+	}
+	n[k] += d
+	s.locks = n
 }
